@@ -908,6 +908,463 @@ def flow_shapes(out, info):
     info["flow_shapes"] = {grp: dict(groups[grp]) for grp in order}
 
 
+class _Facts:
+    """groups of (fact, found?) for the sections of statement-level shape facts"""
+
+    def __init__(self):
+        self.groups = {}
+
+    def fact(self, group, name, body, snippet, *more):
+        """`snippet` is found in `body` (and, for every further (body, snippet) pair in `more`, likewise)"""
+        assert re.fullmatch(r"[a-z][a-z0-9_]*", name), name
+        lst = self.groups.setdefault(group, [])
+        assert name not in [n for n, _ in lst], name
+        pairs = [(body, snippet)] + [(more[i], more[i + 1]) for i in range(0, len(more), 2)]
+        lst.append((name, all(re.search(cpp_re(sn), b, flags=re.S) for b, sn in pairs)))
+
+    def emit(self, out, info, key, order, where):
+        assert sorted(self.groups) == sorted(order)
+        out.append("/-! %s: statements that the hand-written model transcribes, found (true) or not (false) in the\n"
+                   "current source, per property (`FsProofs.Properties.Shapes<Cxx>` state that all are found) -/" % where)
+        for grp in order:
+            out.append("def shapes%s : List (String × Bool) :=\n  [%s]"
+                       % (grp, ",\n   ".join('("%s", %s)' % (k, "true" if v else "false") for k, v in self.groups[grp])))
+        info[key] = {grp: dict(self.groups[grp]) for grp in order}
+
+
+def _par(x):
+    """`x` or `(x)` (redundant parentheses around an operand)"""
+    return r"«\(?» %s «\)?»" % x
+
+
+def grid_shapes(out, info):
+    """Statement-level shape facts (see `flow_shapes`) for the grids, the graph tables' sizes, the kernel
+    application, the block partition, the snapshots, the node status and the operator sequence."""
+    F = _Facts()
+    fact = F.fact
+    B, E = "«^\\s*»", "«\\s*$»"  # the snippet starts / ends the function body
+
+    rg = src("grid/raster_grid.hpp")
+    gb = src("grid/base.hpp")
+    sg = src("grid/structured_grid.hpp")
+    pg = src("grid/profile_grid.hpp")
+    xc = src("utils/xtensor_containers.hpp")
+    it = src("utils/iterators.hpp")
+    fg = src("flow/flow_graph_impl.hpp")
+    gi = src("flow/impl/flow_graph_inl.hpp")
+    gh = src("flow/flow_graph.hpp")
+    tp = src("utils/impl/thread_pool_inl.hpp")
+    fs = src("flow/flow_snapshot.hpp")
+    fo = src("flow/flow_operator.hpp")
+    tm = src("grid/trimesh.hpp")
+
+    R = r"raster_grid<S, RC, C>::"
+    P = r"profile_grid<S, C>::"
+    G = r"grid<G>::"
+    T = r"trimesh_xt<S, N>::"
+    FG = r"flow_graph<G, S, Tag>::"
+    idx_arg = r"\s*\(\s*const size_type& idx\s*\)"
+    rowcol = r"\s*\(\s*const size_type& row,\s*const size_type& col"
+
+    # ------------------------------------------------------------------ neighbours (C07)
+    r_nb_impl = func_body(rg, R + r"neighbors_indices_impl\s*\(", "raster neighbors_indices_impl")
+    r_count = func_body(rg, R + r"neighbors_count_impl" + idx_arg, "raster neighbors_count_impl")
+    r_dist = func_body(rg, R + r"neighbors_distances_impl" + idx_arg, "raster neighbors_distances_impl")
+    r_codes = func_body(rg, R + r"nodes_codes" + idx_arg, "raster nodes_codes(idx)")
+    r_offs = func_body(rg, R + r"neighbor_offsets\s*\(\s*code_type code\s*\)", "raster neighbor_offsets")
+    r_ravel = func_body(rg, R + r"ravel_idx\s*\(", "ravel_idx")
+    r_unravel = func_body(rg, R + r"unravel_idx\s*\(", "unravel_idx")
+    r_nbi_rc = func_body(rg, R + r"neighbors_indices" + rowcol + r",\s*neighbors_indices_raster_type& neighbors_indices\s*\)", "raster neighbors_indices(row, col, out)")
+    r_nb_rc = func_body(rg, R + r"neighbors" + rowcol + r",\s*neighbors_raster_type& neighbors\s*\)", "raster neighbors(row, col, out)")
+    r_bdist = func_body(rg, R + r"build_coded_neighbors_distances\s*\(\s*\)", "build_coded_neighbors_distances")
+    x_dist = func_body(xc, r"static double compute_distance\s*\(", "compute_distance")
+    cache = func_body(gb, r"class neighbors_cache\s*\{", "class neighbors_cache")
+    c_has = func_body(cache, r"bool has\s*\(", "neighbors_cache::has")
+    c_get = func_body(cache, r"neighbors_indices_type& get\s*\(", "neighbors_cache::get")
+    c_store = func_body(cache, r"void store\s*\(", "neighbors_cache::store")
+    nocache = func_body(gb, r"class neighbors_no_cache\s*\{", "class neighbors_no_cache")
+    n_has = func_body(nocache, r"bool has\s*\(", "neighbors_no_cache::has")
+    n_get = func_body(nocache, r"neighbors_indices_type& get_storage\s*\(", "neighbors_no_cache::get_storage")
+    n_storage = func_body(nocache, r"static neighbors_indices_type& storage\s*\(\s*\)", "neighbors_no_cache::storage")
+    g_from_cache = func_body(gb, G + r"get_nb_indices_from_cache\s*\(", "get_nb_indices_from_cache")
+    g_nb = func_body(gb, G + r"neighbors\s*\(\s*const size_type& idx,\s*neighbors_type& neighbors\s*\)", "grid neighbors(idx, out)")
+    g_nbi = func_body(gb, G + r"neighbors_indices\s*\(\s*const size_type& idx,\s*neighbors_indices_type& neighbors_indices\s*\)", "grid neighbors_indices(idx, out)")
+    g_count = func_body(gb, G + r"neighbors_count" + idx_arg, "grid neighbors_count")
+    p_nb_impl = func_body(pg, P + r"neighbors_indices_impl\s*\(", "profile neighbors_indices_impl")
+    p_count = func_body(pg, P + r"neighbors_count_impl" + idx_arg, "profile neighbors_count_impl")
+    p_gcode = func_body(pg, P + r"build_gcode\s*\(\s*\)", "profile build_gcode")
+    g = "C07"
+    fact(g, "raster_neighbor_index_is_row_offset_times_ncols_plus_col_offset_plus_idx_over_the_offsets_of_the_node_code", r_nb_impl,
+         B + "const auto& offsets = neighbor_offsets(nodes_codes(idx)); for (size_type i = 0; i < offsets.size(); %s) { const auto offset = offsets[i]; "
+         "neighbors.at(i) = static_cast<size_type>(%s[0]) * m_shape[1] + static_cast<size_type>(%s[1]) + idx; }" % (_inc("i"), _par("offset"), _par("offset")) + E)
+    fact(g, "raster_count_distances_and_offsets_are_looked_up_by_node_code", r_count, B + "return m_neighbors_count[m_nodes_codes[idx]];" + E,
+         r_dist, B + "return m_neighbor_distances[nodes_codes(idx)];" + E, r_codes, B + "return m_nodes_codes[idx];" + E,
+         r_offs, B + "return m_neighbor_offsets[code];" + E)
+    fact(g, "raster_ravel_is_row_times_ncols_plus_col_unravel_is_quotient_and_remainder_by_ncols", r_ravel, B + "return row * m_shape[1] + col;" + E,
+         r_unravel, B + "auto ncols = m_shape[1]; size_type row = idx / ncols; size_type col = idx - row * ncols; return std::make_pair(row, col);" + E)
+    fact(g, "raster_row_col_indices_overload_ravels_reads_cache_resizes_to_count_and_unravels_each_index", r_nbi_rc,
+         B + "const size_type flat_idx = ravel_idx(row, col); const auto& n_count = neighbors_count_impl(flat_idx); "
+         "const auto& n_indices = this->get_nb_indices_from_cache(flat_idx); if (neighbors_indices.size() != n_count) { neighbors_indices.resize({ n_count }); } "
+         "for (size_type i = 0; i < n_count; %s) { neighbors_indices[i] = unravel_idx(n_indices[i]); } return neighbors_indices;" % _inc("i") + E)
+    fact(g, "raster_row_col_neighbors_overload_fills_flat_row_col_distance_and_status_of_the_neighbor", r_nb_rc,
+         "const size_type flat_idx = ravel_idx(row, col); const auto& n_count = neighbors_count_impl(flat_idx); "
+         "const auto& n_indices = this->get_nb_indices_from_cache(flat_idx); const auto& n_distances = neighbors_distances_impl(flat_idx); "
+         "if (neighbors.size() != n_count) { neighbors.resize({ n_count }); } for (size_type i = 0; i < n_count; %s) { n_flat_idx = n_indices[i]; "
+         "n_raster_idx = unravel_idx(n_flat_idx); neighbors[i] = raster_neighbor({ n_flat_idx, n_raster_idx.first, n_raster_idx.second, n_distances[i], "
+         "this->nodes_status()(n_flat_idx) }); } return neighbors;" % _inc("i") + E)
+    fact(g, "distance_is_sqrt_of_sum_of_squares_of_spacing_where_offset_is_non_zero_computed_per_node_code_from_its_offsets", x_dist,
+         B + "auto drc = xt::where(xt::equal(xt::adapt(offset), 0), 0., 1.) * xt::adapt(xspacing); return std::sqrt(xt::sum(xt::square(drc))(0));" + E,
+         r_bdist, "auto xspacing = m_spacing; auto to_dist = [@](auto&& offset) -> double { return container_impl<container_type>::compute_distance(offset, xspacing); }; "
+         "for (std::uint8_t k = 0; k < 9; %s) { auto offsets = neighbor_offsets(k); auto distances = neighbors_distances_impl_type(); "
+         "std::transform(offsets.cbegin(), offsets.cend(), distances.begin(), to_dist); nb_distances[k] = distances; } return nb_distances;" % _inc("k") + E)
+    fact(g, "cache_rows_start_all_max_has_iff_first_entry_is_not_max_get_and_store_use_the_row_of_the_node", cache,
+         "neighbors_cache(std::size_t size) : m_cache(cache_shape_type({ size })) { for (std::size_t i = 0; i < size; %s) "
+         "{ m_cache[i].fill(std::numeric_limits<std::size_t>::max()); } }" % _inc("i"),
+         c_has, B + "return m_cache[idx][0] == std::numeric_limits<std::size_t>::max() ? false : true;" + E,
+         c_get, B + "return m_cache[idx];" + E, c_store, B + "m_cache[idx] = neighbors_indices;" + E)
+    fact(g, "pass_through_cache_never_has_and_hands_out_one_thread_local_buffer", n_has, B + "return false;" + E, n_get, B + "return storage();" + E,
+         n_storage, B + "static thread_local neighbors_indices_type node_neighbors; return node_neighbors;" + E)
+    fact(g, "cached_row_returned_only_when_present_else_indices_computed_into_the_storage_row", g_from_cache,
+         B + "if (m_neighbors_indices_cache.has(idx)) { neighbors_indices_impl_type& n_indices = m_neighbors_indices_cache.get(idx); return n_indices; } "
+         "else { neighbors_indices_impl_type& n_indices = m_neighbors_indices_cache.get_storage(idx); "
+         "this->derived_grid().neighbors_indices_impl(n_indices, idx); return n_indices; }" + E)
+    fact(g, "neighbors_overload_resizes_output_to_count_and_fills_index_distance_and_status_of_the_neighbor", g_nb,
+         "const auto& n_count = neighbors_count(idx); const auto& n_indices = get_nb_indices_from_cache(idx); "
+         "const auto& n_distances = neighbors_distances_impl(idx); if (neighbors.size() != n_count) { neighbors.resize({ n_count }); } "
+         "for (size_type i = 0; i < n_count; %s) { n_idx = n_indices[i]; neighbors[i] = neighbor({ n_idx, n_distances[i], nodes_status()(n_idx) }); } "
+         "return neighbors;" % _inc("i") + E, g_count, B + "return neighbors_count_impl(idx);" + E)
+    fact(g, "neighbors_indices_overload_resizes_output_to_count_and_copies_the_first_count_indices", g_nbi,
+         B + "const auto& n_count = neighbors_count(idx); const auto& n_indices = get_nb_indices_from_cache(idx); "
+         "if (neighbors_indices.size() != n_count) { neighbors_indices.resize({ n_count }); } "
+         "for (size_type i = 0; i < n_count; %s) { neighbors_indices[i] = n_indices[i]; } return neighbors_indices;" % _inc("i") + E)
+    fact(g, "profile_neighbors_are_left_then_right_wrapping_at_the_ends_when_looped_count_by_end_code", p_nb_impl,
+         B + "if (idx == 0) { if (m_bounds_status.is_horizontal_looped()) { neighbors[0] = m_size - 1; neighbors[1] = 1; } else { neighbors[0] = 1; } } "
+         "else if (idx == m_size - 1) { neighbors[0] = m_size - 2; if (m_bounds_status.is_horizontal_looped()) { neighbors[1] = 0; } } "
+         "else { for (std::size_t k = 1; k < 3; %s) { std::size_t nb_idx = detail::add_offset(idx, offsets[k]); neighbors[k - 1] = nb_idx; } }" % _inc("k") + E,
+         pg, "static constexpr std::array<std::ptrdiff_t, 3> offsets{ { 0, -1, 1 } };", p_count, B + "return m_neighbors_count[gcode(idx)];" + E,
+         p_gcode, "m_gcode_idx.fill(1); m_gcode_idx[0] = 0; m_gcode_idx[m_size - 1] = 2;" + E)
+
+    # ------------------------------------------------------------------ table sizes, index iterator (C08)
+    impl_ctor = func_body(fg, r"\bflow_graph_impl\s*\(\s*grid_type& grid,\s*bool single_flow\s*=\s*false\s*\)", "flow_graph_impl constructor")
+    itc = func_body(it, r"struct grid_node_index_iterator\b", "grid_node_index_iterator")
+    it_ctor = func_body(itc, r"grid_node_index_iterator\s*\(\s*const G& grid,", "index iterator constructor")
+    it_inc = func_body(itc, r"self_type& operator\+\+\s*\(\s*\)", "index iterator operator++")
+    it_dec = func_body(itc, r"self_type& operator--\s*\(\s*\)", "index iterator operator--")
+    it_deref = func_body(itc, r"reference operator\*\s*\(\s*\)\s*const", "index iterator operator*")
+    gni = func_body(it, r"class grid_nodes_indices\s*\{", "class grid_nodes_indices")
+    gni_ctor = func_body(gni, r"grid_nodes_indices\s*\(\s*const G& grid,", "grid_nodes_indices constructor")
+    gni_begin = func_body(gni, r"iterator begin\s*\(\s*\)\s*const", "grid_nodes_indices::begin")
+    gni_end = func_body(gni, r"iterator end\s*\(\s*\)\s*const", "grid_nodes_indices::end")
+    in_bounds = _par("m_idx < m_grid.size()") + " && " + _par("!m_filter_func(m_grid, m_idx)")
+    g = "C08"
+    fact(g, "receivers_width_is_n_neighbors_max_or_one_when_single_flow", impl_ctor,
+         B + "size_type n_receivers_max = grid_type::n_neighbors_max(); if (single_flow) {? n_receivers_max = 1; }?")
+    fact(g, "receivers_tables_have_grid_size_rows_and_that_width_indices_and_distances_minus_one_counts_and_weights_zero", impl_ctor,
+         "const shape_type receivers_shape = { grid.size(), n_receivers_max };", impl_ctor,
+         "m_receivers = xt::ones<size_type>(receivers_shape) * -1; m_receivers_count = xt::zeros<size_type>({ grid.size() }); "
+         "m_receivers_distance = xt::ones<data_type>(receivers_shape) * -1; m_receivers_weight = xt::zeros<data_type>(receivers_shape);")
+    fact(g, "donors_table_has_grid_size_rows_and_n_neighbors_max_plus_one_columns_counts_zero", impl_ctor,
+         "const shape_type donors_shape = { grid.size(), grid_type::n_neighbors_max() + 1 };", impl_ctor,
+         "m_donors = xt::ones<size_type>(donors_shape) * -1; m_donors_count = xt::zeros<size_type>({ grid.size() });")
+    fact(g, "dfs_and_bfs_index_arrays_have_grid_size_entries_bfs_levels_one_more", impl_ctor,
+         "m_dfs_indices = xt::ones<size_type>({ grid.size() }) * -1; m_bfs_indices = xt::ones<size_type>({ grid.size() }) * -1; "
+         "m_bfs_levels = xt::ones<size_type>({ grid.size() + 1 }) * -1;")
+    fact(g, "storage_indices_are_zero_to_grid_size_any_order_levels_are_zero_and_size_basins_have_grid_size", impl_ctor,
+         "m_storage_indices = xt::arange<size_type>(0, grid.size(), 1); m_any_order_levels = nodes_indices_type({ 0, size() });", impl_ctor,
+         "m_basins = xt::empty<size_type>({ grid.size() });")
+    fact(g, "index_iterator_constructor_advances_while_in_bounds_and_filter_fails_bounds_tested_first", it_ctor,
+         B + "while (" + in_bounds + ") { ++m_idx; }" + E)
+    fact(g, "index_iterator_increment_steps_once_then_while_in_bounds_and_filter_fails_bounds_tested_first", it_inc,
+         B + "do { ++m_idx; } while (" + in_bounds + "); return *this;" + E)
+    fact(g, "index_iterator_decrement_steps_once_then_while_positive_and_filter_fails_bounds_tested_first", it_dec,
+         B + "do { --m_idx; } while (" + _par("m_idx > 0") + " && " + _par("!m_filter_func(m_grid, m_idx)") + "); return *this;" + E)
+    fact(g, "index_iterator_dereference_returns_the_index_by_value", it_deref, B + "return m_idx;" + E,
+         it, "xtl::xbidirectional_iterator_base<grid_node_index_iterator<G>, typename G::size_type, std::ptrdiff_t, const typename G::size_type*, typename G::size_type>")
+    fact(g, "nodes_indices_begin_at_zero_end_at_grid_size_default_filter_accepts_all", gni_begin, B + "return iterator(m_grid, m_filter_func, 0);" + E,
+         gni_end, B + "return iterator(m_grid, m_filter_func, m_grid.size());" + E,
+         gni_ctor, B + "if (!func) { m_filter_func = [](const G&, typename G::size_type) { return true; }; } else { m_filter_func = func; }" + E)
+
+    # ------------------------------------------------------------------ kernel application (C10)
+    k_seq = func_body(gi, FG + r"apply_kernel_seq\s*\(", "apply_kernel_seq")
+    k_par = func_body(gi, FG + r"apply_kernel_par\s*\(", "apply_kernel_par")
+    k_any = func_body(gi, FG + r"apply_kernel\s*\(", "apply_kernel")
+    bad_index = "{ throw std::runtime_error(@); } «;?»"
+    g = "C10"
+    fact(g, "seq_indices_are_storage_for_any_bfs_for_breadth_upstream_dfs_for_depth_upstream_else_throws", k_seq,
+         "switch (kernel.apply_dir) { case flow_graph_traversal_dir::any: indices = &impl().storage_indices(); break; "
+         "case flow_graph_traversal_dir::breadth_upstream: indices = &impl().bfs_indices(); break; "
+         "case flow_graph_traversal_dir::depth_upstream: indices = &impl().dfs_indices(); break; default: throw std::runtime_error(@); «(?:break;)?» }")
+    fact(g, "seq_one_node_data_created_initialised_when_init_given_and_freed_after_the_loop", k_seq,
+         "} auto new_node_data = kernel.node_data_create(); if (kernel.node_data_init) {? kernel.node_data_init(new_node_data, data.data); }? "
+         "for (std::size_t i : *indices) {", k_seq, "} kernel.node_data_free(new_node_data); return 0;" + E)
+    fact(g, "seq_each_index_in_order_getter_throwing_on_failure_then_func_then_setter", k_seq,
+         "for (std::size_t i : *indices) { if (kernel.node_data_getter(i, data.data, new_node_data)) " + bad_index +
+         " kernel.func(new_node_data); kernel.node_data_setter(i, new_node_data, data.data); }")
+    fact(g, "par_indices_and_levels_are_storage_and_any_order_for_any_bfs_for_breadth_upstream_else_throws", k_par,
+         "switch (kernel.apply_dir) { case flow_graph_traversal_dir::any: indices = &impl().storage_indices(); levels = &impl().any_order_levels(); break; "
+         "case flow_graph_traversal_dir::breadth_upstream: indices = &impl().bfs_indices(); levels = &impl().bfs_levels(); break; "
+         "default: throw std::runtime_error(@); «(?:break;)?» }")
+    fact(g, "par_pool_resumed_then_resized_to_the_kernel_thread_count", k_par,
+         "} auto n_threads = kernel.n_threads; m_thread_pool.resume(); m_thread_pool.resize(n_threads);")
+    fact(g, "par_one_node_data_per_thread_created_and_initialised_when_init_given", k_par,
+         "std::vector<decltype(kernel.node_data_create())> node_data(n_threads); for (auto i = 0; i < n_threads; %s) { node_data[i] = kernel.node_data_create(); "
+         "if (kernel.node_data_init) {? kernel.node_data_init(node_data[i], data.data); }? }" % _inc("i"))
+    fact(g, "par_run_visits_block_positions_in_order_getter_func_setter_on_indices_at_i_with_the_runner_node_data", k_par,
+         "auto run = [@](std::size_t runner, std::size_t start, std::size_t end) { for (auto i = start; i < end; %s) { auto node_idx = (*indices)[i]; "
+         "auto n_data = node_data[runner]; if (kernel.node_data_getter(node_idx, data.data, n_data)) " % _inc("i") + bad_index +
+         " kernel.func(n_data); kernel.node_data_setter(node_idx, n_data, data.data); } };")
+    fact(g, "par_levels_loop_from_one_first_and_after_last_read_from_the_levels_array", k_par,
+         "for (std::size_t i = 1; i < levels->size(); %s) { const size_type first_idx = (*levels)[i - 1]; const size_type after_last_idx = (*levels)[i]; "
+         "const size_type level_size = after_last_idx - first_idx;" % _inc("i"))
+    fact(g, "par_level_below_min_level_size_run_by_the_caller_as_runner_zero_else_run_blocks_with_min_block_size", k_par,
+         "const size_type level_size = after_last_idx - first_idx; if (level_size < kernel.min_level_size) {? run(0, first_idx, after_last_idx); }? "
+         "else {? m_thread_pool.run_blocks(first_idx, after_last_idx, run, kernel.min_block_size); }? }")
+    fact(g, "par_node_data_freed_per_thread_then_pool_paused", k_par,
+         "} for (std::size_t i = 0; i < n_threads; %s) {? kernel.node_data_free(node_data[i]); }? m_thread_pool.pause(); return 0;" % _inc("i") + E)
+    fact(g, "apply_kernel_runs_par_above_one_thread_else_seq", k_any,
+         "if (kernel.n_threads > 1) {? ret = apply_kernel_par(kernel, data); }? else {? ret = apply_kernel_seq(kernel, data); }? return ret;" + E)
+
+    # ------------------------------------------------------------------ block partition (C11)
+    b_ctor = func_body(tp, r"thread_pool<T>::blocks::blocks\s*\(", "blocks constructor")
+    b_start = func_body(tp, r"thread_pool<T>::blocks::start\s*\(", "blocks::start")
+    b_end = func_body(tp, r"thread_pool<T>::blocks::end\s*\(", "blocks::end")
+    b_num = func_body(tp, r"thread_pool<T>::blocks::num_blocks\s*\(", "blocks::num_blocks")
+    b_run = func_body(tp, r"void thread_pool<T>::run_blocks\s*\(", "run_blocks")
+    g = "C11"
+    fact(g, "blocks_members_initialised_with_first_index_index_after_last_and_requested_number_of_blocks", tp,
+         "thread_pool<T>::blocks::blocks(@) : m_first_index(first_index_), m_index_after_last(index_after_last_), m_num_blocks(num_blocks_) {")
+    fact(g, "non_empty_range_total_size_is_index_after_last_minus_first_index", b_ctor,
+         B + "if (m_index_after_last > m_first_index) { const std::size_t total_size = static_cast<size_t>(m_index_after_last - m_first_index);")
+    fact(g, "number_of_blocks_capped_by_the_total_size", b_ctor,
+         "(m_index_after_last - m_first_index); if (m_num_blocks > total_size) {? m_num_blocks = total_size; }?")
+    fact(g, "then_blocks_smaller_than_min_size_make_the_number_max_of_one_and_total_over_min_size", b_ctor,
+         "m_num_blocks = total_size; }? if (total_size / m_num_blocks < min_size_) {? m_num_blocks = std::max(std::size_t{ 1 }, total_size / min_size_); }?")
+    fact(g, "then_block_size_is_total_over_number_and_remainder_is_total_modulo_number", b_ctor,
+         "total_size / min_size_); }? m_block_size = total_size / m_num_blocks; m_remainder = total_size % m_num_blocks;")
+    fact(g, "then_zero_block_size_becomes_one_with_as_many_blocks_as_elements", b_ctor,
+         "m_remainder = total_size % m_num_blocks; if (m_block_size == 0) { m_block_size = 1; m_num_blocks = (total_size > 1) ? total_size : 1; } }")
+    fact(g, "empty_range_has_zero_blocks", b_ctor, "} else { m_num_blocks = 0; }" + E, b_num, B + "return m_num_blocks;" + E)
+    fact(g, "start_is_first_index_plus_block_times_block_size_plus_min_of_block_and_remainder", b_start,
+         B + "return m_first_index + static_cast<T>(block * m_block_size) + static_cast<T>(block < m_remainder ? block : m_remainder);" + E)
+    fact(g, "end_is_index_after_last_for_the_last_block_else_the_start_of_the_next_block", b_end,
+         B + "return " + _par("block == m_num_blocks - 1") + " ? m_index_after_last : start(block + 1);" + E)
+    fact(g, "run_blocks_on_non_empty_range_partitions_over_pool_size_with_min_size_one_job_per_block_others_null", b_run,
+         "if (index_after_last > first_index) { const blocks blks(first_index, index_after_last, m_size, min_size); for (T i = 0; i < m_size; %s) { "
+         "if (i < blks.num_blocks()) {? p_jobs[i] = [i, func = std::forward<F>(func), start = blks.start(i), end = blks.end(i)]() { func(i, start, end); }; }? "
+         "else {? p_jobs[i] = nullptr; }? } set_tasks(p_jobs); run_tasks(); wait(); }" % _inc("i"))
+
+    # ------------------------------------------------------------------ snapshots, read-only graphs (C16)
+    snap = func_body(fs, r"class\s+flow_operator_impl<\s*FG,\s*flow_snapshot,\s*flow_graph_fixed_array_tag\s*>", "snapshot impl class")
+    s_save = func_body(snap, r"void save\s*\(", "snapshot save")
+    s_get_g = func_body(snap, r"FG& get_snapshot\s*\(", "get_snapshot(graph)")
+    s_get_e = func_body(snap, r"data_array_type& get_snapshot\s*\(", "get_snapshot(elevation)")
+    s_save_g = func_body(snap, r"void _save\s*\(\s*const FG& graph_impl,", "_save(graph)")
+    s_save_e = func_body(snap, r"void _save\s*\(\s*const data_array_type& elevation,", "_save(elevation)")
+    g_ctor = func_body(gi, FG + r"flow_graph\s*\(\s*G& grid,\s*operators_type operators\s*\)", "flow_graph constructor")
+    g_routes = func_body(gi, FG + r"update_routes\s*\(", "flow_graph update_routes")
+    g_setbl = func_body(gi, FG + r"set_base_levels\s*\(", "flow_graph set_base_levels")
+    g_setmask = func_body(gi, FG + r"set_mask\s*\(", "flow_graph set_mask")
+    i_setbl = func_body(fg, r"void set_base_levels\s*\(\s*const C& levels\s*\)", "impl set_base_levels")
+    g = "C16"
+    fact(g, "save_copies_graph_then_elevation_each_only_when_requested_into_the_snapshot_of_that_name", s_save,
+         B + "if (this->m_op_ptr->save_graph()) { _save(graph_impl, get_snapshot(graph_impl_snapshots)); } "
+         "if (this->m_op_ptr->save_elevation()) { _save(elevation, get_snapshot(elevation_snapshots)); }" + E,
+         s_get_g, B + "return *(graph_impl_snapshots.at(this->m_op_ptr->snapshot_name()));" + E,
+         s_get_e, B + "return *(elevation_snapshots.at(this->m_op_ptr->snapshot_name()));" + E)
+    fact(g, "elevation_snapshot_is_assigned_a_copy_of_the_elevation", s_save_e, B + "elevation_snapshot = elevation;" + E)
+    fact(g, "graph_snapshot_copies_counts_orders_levels_donors_base_levels_and_mask_members", s_save_g,
+         B + " ".join("graph_impl_snapshot.%s = graph_impl.%s;" % (m, m) for m in (
+             "m_receivers_count", "m_donors_count", "m_dfs_indices", "m_bfs_indices", "m_bfs_levels", "m_donors", "m_base_levels", "m_mask", "m_mask_initialized"))
+         + " if (graph_impl_snapshot.single_flow()) {")
+    fact(g, "graph_snapshot_copies_column_zero_of_receivers_tables_when_single_flow_else_the_whole_tables", s_save_g,
+         "if (graph_impl_snapshot.single_flow()) { auto receivers_col = xt::col(graph_impl_snapshot.m_receivers, 0); receivers_col = xt::col(graph_impl.m_receivers, 0); "
+         "auto receivers_distance_col = xt::col(graph_impl_snapshot.m_receivers_distance, 0); receivers_distance_col = xt::col(graph_impl.m_receivers_distance, 0); "
+         "auto receivers_weight_col = xt::col(graph_impl_snapshot.m_receivers_weight, 0); receivers_weight_col = xt::col(graph_impl.m_receivers_weight, 0); } "
+         "else { graph_impl_snapshot.m_receivers = graph_impl.m_receivers; graph_impl_snapshot.m_receivers_distance = graph_impl.m_receivers_distance; "
+         "graph_impl_snapshot.m_receivers_weight = graph_impl.m_receivers_weight; }" + E)
+    fact(g, "update_routes_applies_then_saves_each_operator_in_sequence_order_with_the_current_graph_and_elevation", g_routes,
+         "for (auto op = m_operators.impl_begin(); op != m_operators.impl_end(); %s) { op->apply(*m_impl_ptr, *elevation_ptr, m_thread_pool); "
+         "op->save(*m_impl_ptr, m_graph_impl_snapshots, *elevation_ptr, m_elevation_snapshots); } return *elevation_ptr;" % _inc("op") + E)
+    fact(g, "graph_snapshots_preallocated_per_key_as_graphs_of_the_recorded_flow_kind_sharing_their_impl", g_ctor,
+         "for (const auto& key : m_operators.graph_snapshot_keys()) { bool single_flow = m_operators.snapshot_single_flow(key); "
+         "auto graph = new self_type(grid, single_flow); m_graph_snapshots.insert({ key, std::unique_ptr<self_type>(std::move(graph)) }); "
+         "m_graph_impl_snapshots.insert({ key, (*m_graph_snapshots.at(key)).m_impl_ptr }); }")
+    fact(g, "elevation_snapshots_preallocated_per_key_with_the_grid_shape", g_ctor,
+         "for (const auto& key : m_operators.elevation_snapshot_keys()) { auto snapshot = data_array_type::from_shape(grid.shape()); "
+         "m_elevation_snapshots.insert({ key, std::make_unique<data_array_type>(std::move(snapshot)) }); }")
+    fact(g, "snapshot_graphs_are_constructed_not_writeable_other_graphs_writeable", gi,
+         "flow_graph<G, S, Tag>::flow_graph(grid_type& grid, bool single_flow) : m_writeable(false),", gh, "bool m_writeable = true;")
+    guard = B + "if (!m_writeable) { throw std::runtime_error(@); }"
+    fact(g, "update_routes_throws_first_when_the_graph_is_not_writeable", g_routes, guard + " data_array_type* elevation_ptr;")
+    fact(g, "set_base_levels_throws_when_not_writeable_else_replaces_the_set_of_the_impl", g_setbl, guard + " m_impl_ptr->set_base_levels(levels);" + E,
+         i_setbl, B + "m_base_levels.clear(); m_base_levels.insert(levels.begin(), levels.end());" + E)
+    fact(g, "set_mask_throws_when_not_writeable_then_on_shape_mismatch_else_forwards_to_the_impl", g_setmask,
+         guard + " if (!xt::same_shape(mask.shape(), m_grid.shape())) { throw std::runtime_error(@); } m_impl_ptr->set_mask(std::forward<C>(mask));" + E)
+
+    # ------------------------------------------------------------------ node status (C17)
+    r_status = func_body(rg, R + r"set_nodes_status\s*\(", "raster set_nodes_status")
+    r_sym = func_body(rg, r"raster_boundary_status::check_looped_symmetrical\s*\(\s*\)", "raster check_looped_symmetrical")
+    r_hl = func_body(rg, r"raster_boundary_status::is_horizontal_looped\s*\(\s*\)", "raster is_horizontal_looped")
+    r_vl = func_body(rg, r"raster_boundary_status::is_vertical_looped\s*\(\s*\)", "raster is_vertical_looped")
+    s_looped = func_body(sg, r"boundary_status::is_looped\s*\(", "boundary_status::is_looped")
+    p_status = func_body(pg, P + r"set_nodes_status\s*\(", "profile set_nodes_status")
+    p_sym = func_body(pg, r"profile_boundary_status::check_looped_symmetrical\s*\(\s*\)", "profile check_looped_symmetrical")
+    p_hl = func_body(pg, r"profile_boundary_status::is_horizontal_looped\s*\(\s*\)", "profile is_horizontal_looped")
+    g_ni = func_body(gb, G + r"nodes_indices\s*\(\s*node_status status\s*\)", "nodes_indices(status)")
+    cmp_ = func_body(gb, r"bool node_status_cmp\s*\(", "node_status_cmp")
+    x_chk = func_body(xc, r"static void check_size\s*\(", "check_size")
+    views = {k: func_body(xc, r"static auto get_%s_view\s*\(" % k, "get_%s_view" % k) for k in ("top", "bottom", "left", "right")}
+    looped_checks = ("if (status == node_status::looped) { throw std::invalid_argument(@); } else if (%s == node_status::looped) "
+                     "{ throw std::invalid_argument(@); } %s = status; } m_nodes_status = temp_nodes_status;")
+    g = "C17"
+    fact(g, "raster_status_starts_all_core_then_borders_assigned_left_right_top_bottom_in_that_order", r_status,
+         B + "nodes_status_type temp_nodes_status = container_impl<nodes_status_type>::init(m_shape, node_status::core);", r_status,
+         "container_impl<container_type>::get_left_view(temp_nodes_status) = m_bounds_status.left; "
+         "container_impl<container_type>::get_right_view(temp_nodes_status) = m_bounds_status.right; "
+         "container_impl<container_type>::get_top_view(temp_nodes_status) = m_bounds_status.top; "
+         "container_impl<container_type>::get_bottom_view(temp_nodes_status) = m_bounds_status.bottom; std::vector<corner_node> corners")
+    fact(g, "border_views_are_first_and_last_column_first_and_last_row", views["top"], B + "return xt::view(data, 0, xt::all());" + E,
+         views["bottom"], B + "return xt::view(data, xt::keep(-1), xt::all());" + E, views["left"], B + "return xt::view(data, xt::all(), 0);" + E,
+         views["right"], B + "return xt::view(data, xt::all(), xt::keep(-1));" + E)
+    fact(g, "raster_four_corners_listed_with_their_row_border_and_column_border_status", r_status,
+         "const auto nrows = static_cast<size_type>(m_shape[0]); const auto ncols = static_cast<size_type>(m_shape[1]);", r_status,
+         "std::vector<corner_node> corners = { { 0, 0, m_bounds_status.top, m_bounds_status.left }, { 0, ncols - 1, m_bounds_status.top, m_bounds_status.right }, "
+         "{ nrows - 1, 0, m_bounds_status.bottom, m_bounds_status.left }, { nrows - 1, ncols - 1, m_bounds_status.bottom, m_bounds_status.right } };",
+         rg, "struct corner_node { size_type row; size_type col; node_status row_border; node_status col_border; };")
+    fact(g, "raster_corner_status_is_the_max_of_its_two_borders_by_status_priority_assigned_after_the_borders", r_status,
+         "m_bounds_status.right } }; for (const auto& c : corners) { node_status cs = std::max(c.row_border, c.col_border, detail::node_status_cmp); "
+         "temp_nodes_status(c.row, c.col) = cs; } for (const auto& [idx, status] : nodes_status)", cmp_, "return priority[a] < priority[b];" + E)
+    fact(g, "raster_overrides_check_range_then_reject_looped_then_reject_overwriting_looped_then_assign_then_status_published", r_status,
+         "for (const auto& [idx, status] : nodes_status) { container_impl<container_type>::check_size(temp_nodes_status, idx.first, idx.second); "
+         + looped_checks % ("temp_nodes_status(idx.first, idx.second)", "temp_nodes_status(idx.first, idx.second)") + E,
+         x_chk, B + "if (row_index >= data.shape(0) || col_index >= data.shape(1)) {? throw std::out_of_range(@); }?" + E)
+    fact(g, "raster_boundary_status_constructors_take_left_right_top_bottom_then_check_symmetry", rg,
+         "raster_boundary_status::raster_boundary_status(node_status status) : left(status), right(status), top(status), bottom(status) { check_looped_symmetrical(); }",
+         rg, "raster_boundary_status::raster_boundary_status(const std::array<node_status, 4>& status) : left(status[0]), right(status[1]), top(status[2]), "
+         "bottom(status[3]) { check_looped_symmetrical(); }")
+    fact(g, "raster_looped_borders_must_come_in_opposite_pairs_looped_means_status_looped", r_sym,
+         B + "if (is_looped(left) ^ is_looped(right) || is_looped(top) ^ is_looped(bottom)) { throw std::invalid_argument(@); }" + E,
+         r_hl, B + "return is_looped(left) && is_looped(right);" + E, r_vl, B + "return is_looped(top) && is_looped(bottom);" + E,
+         s_looped, B + "return status == node_status::looped;" + E)
+    fact(g, "profile_status_starts_core_then_first_and_last_node_from_bounds_then_overrides_with_the_looped_checks", p_status,
+         B + "nodes_status_type temp_nodes_status(m_shape, node_status::core); temp_nodes_status(0) = m_bounds_status.left; "
+         "temp_nodes_status(m_size - 1) = m_bounds_status.right; for (const auto& [idx, status] : nodes_status) { "
+         + looped_checks % ("temp_nodes_status.at(idx)", "temp_nodes_status.at(idx)") + E)
+    fact(g, "profile_boundary_status_constructors_check_symmetry_of_looped_ends", p_sym,
+         B + "if (is_looped(left) ^ is_looped(right)) { throw std::invalid_argument(@); }" + E, p_hl, B + "return is_looped(left) && is_looped(right);" + E,
+         pg, "profile_boundary_status::profile_boundary_status(node_status left_status, node_status right_status) : left(left_status), right(right_status) "
+         "{ check_looped_symmetrical(); }", pg, "profile_boundary_status::profile_boundary_status(node_status status) : left(status), right(status) { check_looped_symmetrical(); }",
+         pg, "profile_boundary_status::profile_boundary_status(const std::array<node_status, 2>& status) : left(status[0]), right(status[1]) { check_looped_symmetrical(); }")
+    fact(g, "nodes_indices_of_a_status_keeps_the_nodes_whose_flat_status_equals_it", g_ni,
+         "return grid_nodes_indices<G>(derived, [@](const grid& grid, size_type idx) { return grid.nodes_status().flat(idx) == status; });" + E)
+    fact(g, "default_base_levels_are_the_fixed_value_nodes_set_after_the_constructor_checks", g_ctor,
+         "} m_impl_ptr->set_base_levels(m_grid.nodes_indices(node_status::fixed_value)); for (const auto& key : m_operators.graph_snapshot_keys())")
+
+    # ------------------------------------------------------------------ triangular mesh (C18)
+    t_hash = func_body(tm, r"struct tri_edge_hash\s*\{", "tri_edge_hash")
+    t_equal = func_body(tm, r"struct tri_edge_equal\s*\{", "tri_edge_equal")
+    t_size = func_body(tm, T + r"set_size_shape\s*\(", "trimesh set_size_shape")
+    t_nb = func_body(tm, T + r"set_neighbors\s*\(", "trimesh set_neighbors")
+    t_area = func_body(tm, T + r"set_nodes_areas\s*\(", "trimesh set_nodes_areas")
+    t_st_map = func_body(tm, T + r"set_nodes_status\s*\(\s*const nodes_status_map_type& nodes_status\s*\)", "trimesh set_nodes_status(map)")
+    t_st_arr = func_body(tm, T + r"set_nodes_status\s*\(\s*const nodes_status_array_type& nodes_status\s*\)", "trimesh set_nodes_status(array)")
+    t_count = func_body(tm, T + r"neighbors_count_impl\s*\(", "trimesh neighbors_count_impl")
+    t_nbi = func_body(tm, T + r"neighbors_indices_impl\s*\(", "trimesh neighbors_indices_impl")
+    t_dist = func_body(tm, T + r"neighbors_distances_impl\s*\(", "trimesh neighbors_distances_impl")
+    t_area1 = func_body(tm, T + r"nodes_areas_impl" + idx_arg, "trimesh nodes_areas_impl(idx)")
+    steps = "{ set_size_shape(points, triangles); set_neighbors(points, triangles); set_nodes_status(nodes_status); set_nodes_areas(points, triangles); }"
+    g = "C18"
+    fact(g, "edge_keys_hash_and_compare_equal_regardless_of_orientation", t_hash, "return h1 ^ h2;",
+         t_equal, "if (p1.first == p2.second && p1.second == p2.first) { return true; } else { return p1.first == p2.first && p1.second == p2.second; }")
+    fact(g, "constructors_set_size_then_neighbors_then_status_then_areas_size_is_the_number_of_points", tm,
+         "const nodes_status_map_type& nodes_status) : base_type(0), m_nodes_points(points) " + steps,
+         tm, "const nodes_status_array_type& nodes_status) : base_type(0), m_nodes_points(points) " + steps,
+         t_size, "m_size = points.shape()[0]; m_shape = { static_cast<typename shape_type::value_type>(m_size) };" + E)
+    fact(g, "each_of_the_three_edges_of_each_triangle_inserted_with_count_one_or_incremented_when_present", t_nb,
+         "edge_map edges_count; const std::array<std::array<size_type, 2>, 3> tri_local_indices{ { { 1, 2 }, { 2, 0 }, { 0, 1 } } }; "
+         "size_type n_triangles = triangles.shape()[0]; for (size_type i = 0; i < n_triangles; %s) { for (const auto& edge_idx : tri_local_indices) { "
+         "const edge_type key(triangles(i, edge_idx[0]), triangles(i, edge_idx[1])); auto result = edges_count.insert({ key, 1 }); "
+         "if (!result.second) { result.first->second += 1; } } }" % _inc("i"))
+    fact(g, "adjacency_reset_to_mesh_size_then_both_ends_of_an_edge_counted_once_are_boundary_nodes", t_nb,
+         "m_boundary_nodes.clear(); m_neighbors_indices.resize(m_size); m_neighbors_distances.resize(m_size); for (const auto& edge : edges_count) { "
+         "const edge_type& edge_points = edge.first; size_type count = edge.second; if (count == 1) { m_boundary_nodes.insert(edge_points.first); "
+         "m_boundary_nodes.insert(edge_points.second); }")
+    fact(g, "each_edge_appends_each_end_to_the_neighbors_of_the_other_with_the_euclidean_distance", t_nb,
+         "m_boundary_nodes.insert(edge_points.second); } m_neighbors_indices[edge_points.first].push_back(edge_points.second); "
+         "m_neighbors_indices[edge_points.second].push_back(edge_points.first); const auto x1 = points(edge_points.first, 0); "
+         "const auto y1 = points(edge_points.first, 1); const auto x2 = points(edge_points.second, 0); const auto y2 = points(edge_points.second, 1); "
+         "auto distance = std::sqrt(%s); m_neighbors_distances[edge_points.first].push_back(distance); "
+         "m_neighbors_distances[edge_points.second].push_back(distance); }" % _par("(x1 - x2) * (x1 - x2) + (y1 - y2) * (y1 - y2)"))
+    fact(g, "node_with_more_neighbors_than_n_rejected_after_the_adjacency_is_built", t_nb,
+         "push_back(distance); } for (const auto& node_neighbors : m_neighbors_indices) { if (node_neighbors.size() > static_cast<size_type>(N)) "
+         "{ throw std::invalid_argument(@); } }" + E)
+    fact(g, "status_from_map_starts_core_given_statuses_assigned_rejecting_looped_empty_map_sets_fixed_value_at_boundary_nodes", t_st_map,
+         B + "nodes_status_type temp_nodes_status(m_shape, node_status::core); if (nodes_status.size() > 0) { for (const auto& [idx, status] : nodes_status) { "
+         "if (status == node_status::looped) { throw std::invalid_argument(@); } temp_nodes_status.at(idx) = status; } } else { "
+         "for (const size_type& idx : m_boundary_nodes) { temp_nodes_status[idx] = node_status::fixed_value; } } m_nodes_status = temp_nodes_status;" + E)
+    fact(g, "status_from_array_checks_the_shape_then_copies_the_array", t_st_arr,
+         B + "if (!xt::same_shape(nodes_status.shape(), m_shape)) { throw std::invalid_argument(@); } m_nodes_status = nodes_status;" + E)
+    fact(g, "areas_half_edge_vectors_per_triangle_their_squared_lengths_and_pairwise_dot_products", t_area,
+         "std::array<std::array<size_type, 2>, 3> local_idx{ { { 1, 2 }, { 2, 0 }, { 0, 1 } } };", t_area,
+         "for (size_type t = 0; t < n_triangles; %s) { for (size_type i = 0; i < 3; %s) { auto v1 = local_idx[i][0]; auto v2 = local_idx[i][1]; "
+         "for (size_type j = 0; j < 2; %s) { auto p1 = triangles(t, v1); auto p2 = triangles(t, v2); half_edge_coords(i, t, j) = points(p2, j) - points(p1, j); } } } "
+         "xt::xtensor<double, 2> ei_dot_ei = xt::sum(half_edge_coords * half_edge_coords, 2); "
+         "xt::xtensor<double, 2> ei_dot_ej = ei_dot_ei - xt::sum(ei_dot_ei, 0) / 2.0;" % (_inc("t"), _inc("i"), _inc("j")))
+    fact(g, "areas_triangle_area_is_sqrt_of_quarter_of_the_sum_of_products_floored_at_the_smallest_positive_double", t_area,
+         "double just_above_zero = std::numeric_limits<double>::min();", t_area,
+         "for (size_type t = 0; t < n_triangles; %s) { double area_square = 0.25 * (ei_dot_ej(2, t) * ei_dot_ej(0, t) + ei_dot_ej(0, t) * ei_dot_ej(1, t) "
+         "+ ei_dot_ej(1, t) * ei_dot_ej(2, t)); triangles_areas(t) = std::sqrt(std::max(area_square, just_above_zero)); }" % _inc("t"))
+    fact(g, "areas_circumcentric_shares_per_half_edge_summed_per_vertex_into_weights", t_area,
+         "auto ce_ratios = -ei_dot_ej * 0.25 / triangles_areas; xt::xtensor<double, 2> tri_partitions = ei_dot_ei / 2 * ce_ratios / (3 - 1);", t_area,
+         "weights.resize({ n_triangles * 3 }); for (size_type t = 0; t < n_triangles; %s) { weights(t) = tri_partitions(1, t) + tri_partitions(2, t); "
+         "weights(n_triangles + t) = tri_partitions(2, t) + tri_partitions(0, t); weights(n_triangles * 2 + t) = tri_partitions(0, t) + tri_partitions(1, t); }" % _inc("t"))
+    fact(g, "areas_accumulated_per_node_by_bincount_over_the_transposed_triangles_isolated_nodes_get_the_smallest_positive_double", t_area,
+         "auto triangles_t_flat = xt::flatten(xt::transpose(triangles)); m_nodes_areas = xt::bincount(triangles_t_flat, weights, n_points); "
+         "for (size_type i = 0; i < n_points; %s) { if (m_nodes_areas(i) == 0 && neighbors_count_impl(i) == 0) { m_nodes_areas(i) = just_above_zero; } }" % _inc("i") + E,
+         t_area1, B + "return m_nodes_areas(idx);" + E)
+    fact(g, "mesh_neighbors_count_indices_and_distances_are_read_from_the_adjacency_lists_of_the_node", t_count, B + "return m_neighbors_indices[idx].size();" + E,
+         t_nbi, B + "const auto& size = m_neighbors_indices[idx].size(); neighbors.resize(size); for (size_type i = 0; i < size; %s) "
+         "{ neighbors[i] = m_neighbors_indices[idx][i]; }" % _inc("i") + E, t_dist, B + "return m_neighbors_distances[idx];" + E)
+
+    # ------------------------------------------------------------------ operator sequence (C20)
+    op_cls = func_body(fo, r"class flow_operator\s*\{", "class flow_operator")
+    seq_cls = func_body(fo, r"class flow_operator_sequence\s*\{", "class flow_operator_sequence")
+    o_add = func_body(fo, r"void flow_operator_sequence<FG>::add_operator\s*\(\s*std::shared_ptr<OP> ptr\s*\)", "add_operator")
+    o_snap = func_body(fs, r"void flow_operator_sequence<FG>::update_snapshots\s*\(", "update_snapshots")
+    g = "C20"
+    fact(g, "operator_defaults_update_nothing_and_leave_both_directions_undefined", op_cls,
+         "static constexpr bool elevation_updated = false;", op_cls, "static constexpr bool graph_updated = false;",
+         op_cls, "static constexpr flow_direction in_flowdir = flow_direction::undefined;",
+         op_cls, "static constexpr flow_direction out_flowdir = flow_direction::undefined;")
+    fact(g, "sequence_starts_with_nothing_updated_direction_undefined_and_all_single_flow", seq_cls,
+         "bool m_elevation_updated = false; bool m_graph_updated = false; flow_direction m_out_flowdir = flow_direction::undefined; bool m_all_single_flow = true;")
+    fact(g, "snapshot_operator_registered_before_the_direction_check", o_add,
+         "if constexpr (std::is_same_v<OP, flow_snapshot>) { update_snapshots(*ptr); } if (ptr->in_flowdir")
+    fact(g, "defined_input_direction_must_equal_the_current_output_direction_else_throws", o_add,
+         "if (ptr->in_flowdir != flow_direction::undefined && ptr->in_flowdir != m_out_flowdir) { throw std::invalid_argument(@); }")
+    fact(g, "elevation_updated_accumulates_over_the_operators", o_add, "} if (ptr->elevation_updated) { m_elevation_updated = true; } if (ptr->graph_updated)")
+    fact(g, "graph_updated_accumulates_and_only_then_a_defined_output_direction_replaces_the_current_one_non_single_clears_all_single_flow", o_add,
+         "if (ptr->graph_updated) { m_graph_updated = true; if (ptr->out_flowdir != flow_direction::undefined) { m_out_flowdir = ptr->out_flowdir; "
+         "if (ptr->out_flowdir != flow_direction::single) { m_all_single_flow = false; } } }")
+    fact(g, "operator_and_its_implementation_appended_last", o_add,
+         "} } } m_op_vec.push_back(ptr.get()); m_op_impl_vec.push_back(operator_impl_type(std::move(ptr)));" + E)
+    fact(g, "graph_snapshot_requires_a_defined_direction_and_records_whether_it_is_single_elevation_snapshot_key_recorded", o_snap,
+         B + "const auto& snapshot_name = snapshot.snapshot_name(); if (snapshot.save_graph()) { m_graph_snapshot_keys.push_back(snapshot_name); "
+         "if (m_out_flowdir == flow_direction::undefined) { throw std::invalid_argument(@); } "
+         "bool single_flow = m_out_flowdir == flow_direction::single «(?:\\?\\s*true\\s*:\\s*false)?»; "
+         "m_graph_snapshot_single_flow.insert({ snapshot_name, single_flow }); } if (snapshot.save_elevation()) { m_elevation_snapshot_keys.push_back(snapshot_name); }" + E)
+    fact(g, "graph_constructor_builds_the_impl_with_all_single_flow_then_throws_when_no_operator_updates_the_graph_then_when_direction_undefined", g_ctor,
+         B + "m_impl_ptr = std::make_shared<impl_type>(grid, m_operators.all_single_flow()); if (!m_operators.graph_updated()) { throw std::invalid_argument(@); } "
+         "if (m_operators.out_flowdir() == flow_direction::undefined) { throw std::invalid_argument(@); }")
+    fact(g, "graph_constructor_allocates_the_elevation_copy_only_when_some_operator_updates_the_elevation", g_ctor,
+         "if (m_operators.elevation_updated()) { m_elevation_copy = xt::empty<data_type>(grid.shape()); }" + E)
+    fact(g, "update_routes_works_on_a_fresh_copy_of_the_elevation_iff_elevation_updated_else_on_the_argument_and_returns_it", g_routes,
+         "data_array_type* elevation_ptr; if (m_operators.elevation_updated()) { m_elevation_copy = elevation; elevation_ptr = &m_elevation_copy; } "
+         "else { elevation_ptr = const_cast<data_array_type*>(&elevation); } for (auto op = m_operators.impl_begin();", g_routes, "return *elevation_ptr;" + E)
+
+    F.emit(out, info, "grid_shapes", ["C07", "C08", "C10", "C11", "C16", "C17", "C18", "C20"], "grids, graph tables, kernels, blocks, snapshots, status, operator sequence")
+
+
 SECTIONS = [  # (name, function, properties whose tie depends on it)
     ("mesh_limits", mesh_limits, ["C08", "C18"]),
     ("raster_tables", raster_tables, ["C07", "C08"]),
@@ -917,6 +1374,7 @@ SECTIONS = [  # (name, function, properties whose tie depends on it)
     ("pool_orders", pool_orders, ["C10", "C11", "C15"]),
     ("spl_forms", spl_forms, ["C12", "C13"]),
     ("flow_shapes", flow_shapes, ["C01","C02","C03","C04","C05","C06","C09","C12","C13","C14","C15","C19"]),
+    ("grid_shapes", grid_shapes, ["C07","C08","C10","C11","C16","C17","C18","C20"]),
 ]
 FALLBACK = os.path.join(HERE, "translate_fallback.json")
 
